@@ -591,7 +591,10 @@ func (p *Path) block(th *Thread, cond func() bool) {
 			}
 			p.deadlock(sb.String())
 		}
-		k := p.choose(len(others))
+		k := 0
+		if p.eng.cfg.Preempt >= 0 { // a negative bound = sequential mode: the lowest runnable thread continues
+			k = p.choose(len(others))
+		}
 		p.sched = append(p.sched, others[k].id)
 		p.switchTo(th, others[k])
 		th.waiting = nil
@@ -637,7 +640,10 @@ func (p *Path) threadExit(th *Thread) {
 		return
 	}
 	defer func() { recover() }()
-	k := p.choose(len(others))
+	k := 0
+	if p.eng.cfg.Preempt >= 0 {
+		k = p.choose(len(others))
+	}
 	p.sched = append(p.sched, others[k].id)
 	p.cur = others[k]
 	others[k].resume <- struct{}{}
